@@ -456,6 +456,17 @@ def call_with_timeout(fn, timeout=None):
         try:
             box["r"] = fn()
         except BaseException as e:  # noqa
+            # Drop the traceback at once: it forms a cycle (box -> e -> traceback -> this frame -> box) that keeps the
+            # frames of Connection.send alive (a memoryview exported by a BytesIO); collecting that cycle later crashes
+            # CPython 3.12 ("deallocated BytesIO object has exported buffers").
+            import traceback
+
+            try:
+                e.c02_traceback = traceback.format_exc()[-1500:]
+                traceback.clear_frames(e.__traceback__)
+            except Exception:
+                pass
+            e.__traceback__ = None
             box["e"] = e
 
     t = threading.Thread(target=run, daemon=True)
@@ -671,6 +682,11 @@ def run_case(ctx, case):
                               {"kind": "hang", "op": kind}, {"op_index": k, "op": op})
                 kill_subproc(sub)
                 sub = None
+                return res
+            except Exception as e:  # noqa
+                rep.violation("SubprocVecEnv raised on a call that DummyVecEnv accepted", case,
+                              {"kind": "exception", "op": kind, "exception": type(e).__name__},
+                              {"op_index": k, "op": op, "traceback": getattr(e, "c02_traceback", repr(e))})
                 return res
             windows.append((t0, time.monotonic_ns(), kind, k))
             phase = {"step_async": "waiting", "step_wait": "idle", "close": "closed"}.get(kind, phase)
